@@ -224,7 +224,7 @@ func genMaven(r *rand.Rand) tree {
 
 func exhMaven() []tree {
 	var out []tree
-	numss := [][]string{{"1"}, {"1", "0"}, {"1", "1"}, {"1", "0", "0"}, {"1", "0", "1"}, {"2"}}
+	numss := [][]string{{"1"}, {"1", "0"}, {"1", "1"}, {"1", "0", "0"}, {"1", "0", "1"}, {"2"}, {"0"}, {"0", "0"}, {"0", "1"}}
 	quals := []string{"", "alpha", "a", "b", "rc", "snapshot", "ga", "final", "sp", "foo", "x"}
 	for _, n := range numss {
 		for _, q := range quals {
